@@ -290,7 +290,7 @@ def check_c17(prop, tier):
         if events:
             res.add_sample({k: events[0][k] for k in ("op", "args", "pre", "ret", "st", "rate", "width")})
             res.add_sample({k: events[-1][k] for k in ("op", "args", "pre", "ret", "st", "rate", "width")})
-        res.notes = dict(enumerated_transitions=len(emitted), plans=plans, deep_design_run=deep_note)
+        res.notes = dict(enumerated_transitions=len(emitted), plans=plans)
         res.assumptions = ["generated samples project to id 0 / -1; kept samples are identified by their distinct ids",
                            "the cropped TextGrids written by splitAudioOnTier are read back with praatio's own reader (C03 covers the reader)"]
         return finish(res, prop, tier, events, work, ["C17_"],
